@@ -412,3 +412,196 @@ func (a *lockAnalysis) walkNode(n ast.Node, recv string, held map[string]string)
 		return true
 	})
 }
+
+func leanStr(s string) string {
+	s = strings.ReplaceAll(s, `\`, `\\`)
+	s = strings.ReplaceAll(s, `"`, `\"`)
+	return `"` + s + `"`
+}
+
+func leanList(l []string) string {
+	q := make([]string, len(l))
+	for i, s := range l {
+		q[i] = leanStr(s)
+	}
+	return "[" + strings.Join(q, ", ") + "]"
+}
+
+// structFields lists the field names of a struct type declaration (embedded fields by type name).
+func structFields(files []*ast.File, name string) ([]string, bool) {
+	for _, f := range files {
+		for _, d := range f.Decls {
+			gd, ok := d.(*ast.GenDecl)
+			if !ok {
+				continue
+			}
+			for _, sp := range gd.Specs {
+				ts, ok := sp.(*ast.TypeSpec)
+				if !ok || ts.Name.Name != name {
+					continue
+				}
+				st, ok := ts.Type.(*ast.StructType)
+				if !ok {
+					return nil, false
+				}
+				var out []string
+				for _, fl := range st.Fields.List {
+					if len(fl.Names) == 0 {
+						t := fl.Type
+						if s, ok := t.(*ast.StarExpr); ok {
+							t = s.X
+						}
+						switch v := t.(type) {
+						case *ast.Ident:
+							out = append(out, v.Name)
+						case *ast.SelectorExpr:
+							out = append(out, v.Sel.Name)
+						}
+					}
+					for _, n := range fl.Names {
+						out = append(out, n.Name)
+					}
+				}
+				return out, true
+			}
+		}
+	}
+	return nil, false
+}
+
+func lockRows(repo string) []lockRow {
+	var rows []lockRow
+	for ti := range lockTypes {
+		lt := &lockTypes[ti]
+		fset := token.NewFileSet()
+		pkgs, err := parser.ParseDir(fset, filepath.Join(repo, lt.Dir), func(fi os.FileInfo) bool {
+			return !strings.HasSuffix(fi.Name(), "_test.go")
+		}, 0)
+		if err != nil {
+			lockFail("%s: %v", lt.Dir, err)
+		}
+		var names []string
+		byName := map[string]*ast.File{}
+		for _, p := range pkgs {
+			for fn, f := range p.Files {
+				names = append(names, fn)
+				byName[fn] = f
+			}
+		}
+		sort.Strings(names)
+		var files []*ast.File
+		for _, fn := range names {
+			files = append(files, byName[fn])
+		}
+		a := &lockAnalysis{lt: lt, fset: fset, methods: map[string]*ast.FuncDecl{}, guardOf: map[string]string{}}
+		for mu, fs := range lt.Mutexes {
+			for _, f := range fs {
+				a.guardOf[f] = mu
+			}
+		}
+		// every field of the receiver structs must be classified
+		for _, r := range lt.Recvs {
+			fields, ok := structFields(files, r)
+			if !ok {
+				lockFail("struct type %s not found in %s", r, lt.Dir)
+			}
+			for _, f := range fields {
+				if a.fieldClass(f) == "" {
+					lockFail("%s: field %s.%s is not classified (mutex / guarded / cond / self-synchronised / immutable)", lt.Name, r, f)
+				}
+			}
+		}
+		// method set: own type first, then the embedded receivers
+		var exported []*ast.FuncDecl
+		for _, r := range lt.Recvs {
+			for _, f := range files {
+				for _, d := range f.Decls {
+					fd, ok := d.(*ast.FuncDecl)
+					if !ok || recvTypeName(fd) != r || fd.Body == nil {
+						continue
+					}
+					if _, dup := a.methods[fd.Name.Name]; dup {
+						continue
+					}
+					a.methods[fd.Name.Name] = fd
+					if ast.IsExported(fd.Name.Name) {
+						exported = append(exported, fd)
+					}
+				}
+			}
+		}
+		if len(exported) == 0 {
+			lockFail("%s: no exported methods found", lt.Name)
+		}
+		for m := range lt.Exempt {
+			if fd := a.methods[m]; fd == nil || !ast.IsExported(m) {
+				lockFail("%s: exempt method %s not found", lt.Name, m)
+			}
+		}
+		for _, fd := range exported {
+			pos := fset.Position(fd.Pos())
+			rel, _ := filepath.Rel(repo, pos.Filename)
+			row := lockRow{Type: lt.Name, Method: fd.Name.Name, Pos: fmt.Sprintf("%s:%d", rel, pos.Line),
+				Mode: "none", Unlock: "none", Exempt: "no"}
+			if ex, ok := lt.Exempt[fd.Name.Name]; ok {
+				row.Exempt, row.Reason = ex[0], ex[1]
+			}
+			a.row = &row
+			a.stack = map[string]bool{}
+			a.walkStmts(fd.Body.List, recvVar(fd), map[string]string{}, true)
+			rows = append(rows, row)
+		}
+	}
+	return rows
+}
+
+// genLockFacts writes Gen/Locks.lean (only when its content changes).
+func genLockFacts(repo, out string) {
+	rows := lockRows(repo)
+	var b bytes.Buffer
+	b.WriteString("/-! GENERATED by go/cmd/extract (lockfacts.go) from the Go sources of lachesis-base — do not edit.\n" +
+		"    One row per exported method of the thread-safe components: the mutex taken first, how it is\n" +
+		"    released, and the guarded receiver fields touched while their mutex is not held. -/\nnamespace Gen.Locks\n\n" +
+		"inductive Mode where\n  | none | excl | shared\nderiving DecidableEq, Repr\n\n" +
+		"inductive Unlock where\n  | none | deferred | paired\nderiving DecidableEq, Repr\n\n" +
+		"/-- why a method is not claimed to be one critical section (`no` = it is claimed) -/\n" +
+		"inductive Exempt where\n  | no | pure | delegates | immutable | blocking | lifecycle\nderiving DecidableEq, Repr\n\n" +
+		"structure Row where\n  ty : String\n  method : String\n  mutex : String\n  mode : Mode\n  unlock : Unlock\n" +
+		"  /-- guarded fields accessed while their mutex is not held -/\n  outside : List String\n" +
+		"  /-- guarded fields written (assigned, or passed to a method not known to be read-only) under a shared lock -/\n  readerWrites : List String\n" +
+		"  /-- lock statements that do not follow the `Lock; defer Unlock` / `Lock … Unlock` patterns -/\n  irregular : List String\n" +
+		"  /-- calls cond.Wait (releases the mutex in the middle) -/\n  waits : Bool\n  exempt : Exempt\n  reason : String\nderiving Repr\n\n")
+	fmt.Fprintf(&b, "/-- guarded fields per type and mutex (the table in lockfacts.go) -/\ndef guarded : List (String × String × List String) := [\n")
+	var gl []string
+	for _, lt := range lockTypes {
+		var mus []string
+		for mu := range lt.Mutexes {
+			mus = append(mus, mu)
+		}
+		sort.Strings(mus)
+		for _, mu := range mus {
+			gl = append(gl, fmt.Sprintf("  (%s, %s, %s)", leanStr(lt.Name), leanStr(mu), leanList(lt.Mutexes[mu])))
+		}
+	}
+	b.WriteString(strings.Join(gl, ",\n") + "]\n\n")
+	b.WriteString("def rows : List Row := [\n")
+	for i, r := range rows {
+		fmt.Fprintf(&b, "  -- %s\n  { ty := %s, method := %s, mutex := %s, mode := .%s, unlock := .%s,\n    outside := %s, readerWrites := %s, irregular := %s,\n    waits := %v, exempt := .%s, reason := %s }",
+			r.Pos, leanStr(r.Type), leanStr(r.Method), leanStr(r.Mutex), r.Mode, r.Unlock,
+			leanList(r.Outside), leanList(r.ReaderWrite), leanList(r.Irregular), r.Waits, r.Exempt, leanStr(r.Reason))
+		if i+1 < len(rows) {
+			b.WriteString(",")
+		}
+		b.WriteString("\n")
+	}
+	b.WriteString("]\n\nend Gen.Locks\n")
+	path := filepath.Join(out, "Locks.lean")
+	old, _ := os.ReadFile(path)
+	if !bytes.Equal(old, b.Bytes()) {
+		if err := os.WriteFile(path, b.Bytes(), 0o644); err != nil {
+			fmt.Fprintln(os.Stderr, err)
+			os.Exit(1)
+		}
+		fmt.Printf("extract: rewrote %s\n", path)
+	}
+}
